@@ -53,7 +53,7 @@ def rest_configs(m, chunk):
     return out
 
 
-def numeric_predicates(m, seed):
+def _numeric_predicates(m, seed):
     pd = m["pd"]; sim, earth, T, SD = m["sim"], m["pyins"].earth, m["transform"], m["strapdown"]
     rng = np.random.RandomState((seed * 19 + 2) % (2 ** 31))
     out = []
@@ -149,3 +149,14 @@ def replay(rep, pid, case):
         for name, holds, detail in numeric_predicates(m, case["seed"]):
             if not holds and name == case.get("name"):
                 rep.violation("C03 replay: numeric predicate %s: %s" % (name, detail), case)
+
+
+def numeric_predicates(m, seed):
+    """An exception raised by the library while a predicate is evaluated is an observation (a failing predicate); one that never
+    entered pyins is a defect of the harness."""
+    try:
+        return _numeric_predicates(m, seed)
+    except Exception as e:
+        if not exc.entered_pyins(e):
+            raise
+        return [("library_raised", False, exc.describe(e))]
